@@ -38,7 +38,8 @@ TruthOf(e, row) == IsTrue(Eval(e, row))
 Step(c, s, row) ==
   LET v == Col(row, c.col) IN
   CASE c.fn = "lag" ->
-         LET res == IF Len(s.hist) >= c.off THEN s.hist[Len(s.hist) - c.off + 1] ELSE IF c.hasdef = 1 THEN c.def ELSE Null
+         \* the default is an argument like any other: a literal (hasdef = 1) or a column of the CURRENT row (hasdef = 2: lag(v, 2, w))
+         LET res == IF Len(s.hist) >= c.off THEN s.hist[Len(s.hist) - c.off + 1] ELSE IF c.hasdef = 1 THEN c.def ELSE IF c.hasdef = 2 THEN Col(row, c.defcol) ELSE Null
              h1 == IF c.ign = 1 /\ IsNull(v) THEN s.hist ELSE Append(s.hist, v)
              h2 == IF Len(h1) > c.off THEN SubSeq(h1, Len(h1) - c.off + 1, Len(h1)) ELSE h1
          IN <<[s EXCEPT !.hist = h2], res>>
